@@ -89,6 +89,9 @@ def c02(rep, env):
         BM.check_definition(rep, fb, crates={"cbc", "pcbc", "ige"})
         BM.check_par(rep, fb, crates={"cbc", "pcbc", "ige"})
         MI.check_plumbing(rep, fb, crates={"cbc", "pcbc", "ige"})
+        # the definition must hold for both ways of passing buffers: the in-place summary equals the
+        # buffer-to-buffer summary that was compared with the recurrence above
+        only(rep, lambda r: BM.check_inplace(r, fb, crates={"cbc", "pcbc", "ige"}), pre("alias.same", "alias.no-old-output"))
     per_config(rep, env, f)
 
 
@@ -99,6 +102,9 @@ def c03(rep, env):
         MI.check_plumbing(rep, fb, crates={"cfb_mode", "cfb8", "ofb"})
         MI.check_enc_only(rep, fb, crates={"cfb_mode", "cfb8", "ofb"})
         BC.check_definition(rep, fb)
+        BC.check_state(rep, fb)      # "any chunking of the calls" includes resuming from an exported (block, position)
+        BC.check_init(rep, fb)
+        only(rep, lambda r: BM.check_inplace(r, fb, crates={"cfb_mode", "cfb8", "ofb"}), pre("alias.same", "alias.no-old-output"))
     per_config(rep, env, f)
 
 
@@ -123,7 +129,8 @@ def c06(rep, env):
     def f(fb):
         # rem.exact belongs here too: a wrong remaining-blocks report makes the byte-level API refuse
         # keystream blocks E(s0+i) that the definition (sums mod 2^128) requires it to produce
-        only(rep, lambda r: SM.check_belt(r, fb, parts=("def", "par", "rem")), pre("belt.", "par.", "rem.exact"))
+        # pos.*: the property quantifies over the start offset, i.e. block E(s0 + p + i) after a seek to block p
+        only(rep, lambda r: SM.check_belt(r, fb, parts=("def", "par", "rem", "pos")), pre("belt.", "par.", "rem.exact", "pos."))
         MI.check_plumbing(rep, fb, crates={"belt_ctr"})
         MI.check_enc_only(rep, fb, crates={"belt_ctr"})
     per_config(rep, env, f)
